@@ -121,11 +121,20 @@ func crowdScenario(rng *vh.Rng, idx int) *CrowdRec {
 		quietSince := time.Now()
 		last := atomic.LoadInt64(&started)
 		deadline := time.Now().Add(120 * time.Second)
+		stalled := time.Duration(0)
 		for time.Since(quietSince) < 3*time.Second && time.Now().Before(deadline) {
+			t0 := time.Now()
 			time.Sleep(50 * time.Millisecond)
+			if d := time.Since(t0); d > stalled {
+				stalled = d // how late this goroutine itself was woken: a machine that starves goroutines cannot be judged by silence
+			}
 			if s := atomic.LoadInt64(&started); s != last || atomic.LoadInt64(&inflight) != 0 {
 				last, quietSince = s, time.Now()
 			}
+		}
+		if stalled > 750*time.Millisecond {
+			rec.NotJudged = fmt.Sprintf("goroutines were woken up to %s late while waiting for quiescence", stalled)
+			continue
 		}
 		if time.Since(quietSince) < 3*time.Second {
 			rec.NotJudged = "deliveries still running after 120 s"
